@@ -5,7 +5,7 @@
 
 package tc
 
-//@ for C14
+//@ for C14 C15
 //@ filemode bv
 
 //@ # The CIDR-membership oracle (contains4 / contains16, byte by byte) lives in /verif/lib/common.spec.
